@@ -25,6 +25,11 @@ pub(crate) struct Thread {
     /// Tracks observed causality
     pub causality: VersionVec,
 
+    /// Causality of the threads that unparked this thread. It is acquired by
+    /// the call to `park` that returns because of the unpark: a thread that
+    /// never parks does not synchronize with its unparkers.
+    pub unpark_causality: VersionVec,
+
     /// Tracks the view of the lastest release fence
     pub released: VersionVec,
 
@@ -105,6 +110,7 @@ impl Thread {
             critical: false,
             operation: None,
             causality: VersionVec::new(),
+            unpark_causality: VersionVec::new(),
             released: VersionVec::new(),
             dpor_vv: VersionVec::new(),
             last_yield: None,
@@ -159,7 +165,7 @@ impl Thread {
     }
 
     pub(crate) fn unpark(&mut self, unparker: &Thread) {
-        self.causality.join(&unparker.causality);
+        self.unpark_causality.join(&unparker.causality);
         self.set_unparked();
     }
 
